@@ -302,6 +302,106 @@ def constructor_findings(rng, tier):
     return found, nrun
 
 
+def newick_writing_findings(rng, tier):
+    """Ways of WRITING the same tree in the newick string itself (lengths read from the string): a zero-length internal
+    branch written out or collapsed into a multifurcation (below a bifurcating or a trifurcating root), and the rooting
+    comments `[&U]` / `[&R]` that tree-writing programs put in front of the string.  Every writing denotes the same
+    unrooted tree with the same lengths: one likelihood."""
+    impl.load()
+    from torchtree.core.utils import process_object
+    found, nrun = {}, 0
+    rep = lambda x: repr(float(x))
+    usable, tries = 0, 0
+    while usable < (6 if tier == "quick" else 40) and tries < 400:
+        tries += 1
+        can = gen_canonical(rng, tier)
+        n, names = can["n"], can["names"]
+        if n < 5 or can["kind"] != "unrooted":
+            continue
+        usable += 1
+        tree = can["tree"]
+        cl = clades(tree)
+        # internal nodes below the root children (collapsing one of them makes a multifurcation BELOW the root)
+        inner = []
+
+        def walk(u, depth):
+            if isinstance(u, int):
+                return
+            if depth >= 2:
+                inner.append(id(u))
+            for ch in u:
+                walk(ch, depth + 1)
+        walk(tree, 0)
+        if not inner:
+            continue
+        zero = set(rng.sample(inner, k=min(len(inner), rng.choice([1, 1, 2]))))
+
+        def rec(u, length, collapse):
+            if isinstance(u, int):
+                return [f"{names[u]}:{rep(length)}"]
+            kids = []
+            for ch in u:
+                kids += rec(ch, can["edge"][split_key(cl[id(ch)], n)], collapse)
+            if id(u) in zero:
+                if collapse:
+                    return kids                       # the children hang directly on the parent
+                return ["(" + ",".join(kids) + "):0.0"]
+            return ["(" + ",".join(kids) + f"):{rep(length)}"]
+
+        def write(collapse, trifurcate, prefix):
+            a, b = tree
+            e = can["edge"][split_key(cl[id(a)], n)]
+            if trifurcate:
+                innr, other = (a, b) if not isinstance(a, int) else (b, a)
+                if isinstance(innr, int):
+                    return None
+                parts = []
+                for ch in innr:
+                    parts += rec(ch, can["edge"][split_key(cl[id(ch)], n)], collapse)
+                parts += rec(other, e, collapse)
+            else:
+                fr = 0.5
+                parts = rec(a, fr * e, collapse) + rec(b, (1 - fr) * e, collapse)
+            return prefix + "(" + ",".join(parts) + ");"
+        writings = {"written-out": write(False, False, ""), "collapsed": write(True, False, ""),
+                    "collapsed,trifurcating-root": write(True, True, ""), "[&U]": write(False, True, "[&U] "),
+                    "[&U],bifurcating": write(False, False, "[&U] "), "[&R]": write(False, False, "[&R] "),
+                    "[&U],collapsed": write(True, True, "[&U] ")}
+        ident = list(range(n))
+        case = realise(can, tree, ident, ident, can["seqs"], rng.choice(["partials_noamb", "states", "partials_amb"]))
+        vals = {}
+        for how, nw in writings.items():
+            if nw is None:
+                continue
+            d = c01.spec(case)
+            tm = d["tree_model"]
+            if tm.get("type") != "UnRootedTreeModel":
+                break
+            tm = dict(tm)
+            tm["newick"] = nw
+            tm["keep_branch_lengths"] = True
+            d["tree_model"] = tm
+            try:
+                dic = {}
+                vals[how] = float(process_object(d, dic)().detach())
+                nrun += 1
+            except Exception as e:      # noqa
+                k = f"C02:newick-writing:{how.split(',')[0]}:raises:{type(e).__name__}"
+                found.setdefault(k, (k, f"{how}: {type(e).__name__}: {str(e)[:160]} [{nw[:200]}]",
+                                     dict(kind="newick-writing", how=how, newick=nw, names=names)))
+        if "written-out" in vals:
+            want = vals["written-out"]
+            for how, got in vals.items():
+                if not (math.isfinite(got) and abs(got - want) <= 1e-9 * max(1.0, abs(want))):
+                    k = f"C02:newick-writing:{how}"
+                    found.setdefault(k, (k, f"the same tree written `{how}` has log-likelihood {got!r}, with its zero-length "
+                                            f"branches written out {want!r}: {writings[how][:300]}",
+                                         dict(kind="newick-writing", how=how, newick=writings[how],
+                                              reference_newick=writings["written-out"], names=names,
+                                              seqs=can["seqs"], value=got, reference=want)))
+    return list(found.values()), nrun
+
+
 def large_tree_rooting_findings(rng, tier):
     """Root placement on a tree large enough for a site likelihood to fall into the SUBNORMAL range of a double
     (between 4.9e-324 and 2.2e-308: the plain recursion neither overflows to -inf nor keeps its precision there): the
@@ -511,6 +611,9 @@ def run(tier, seed, replay=None):
     big_fs, n_big = ([], 0) if replay else large_tree_rooting_findings(rng, tier)
     for f in big_fs:
         rep.violation(*f)
+    nw_fs, n_nw = ([], 0) if replay else newick_writing_findings(rng, tier)
+    for f in nw_fs[:4]:
+        rep.violation(*f)
     cons_fs, n_cons = ([], 0) if replay else constructor_findings(rng, tier)
     seen_c = set()
     for f in cons_fs:
@@ -562,5 +665,6 @@ def run(tier, seed, replay=None):
     rep.extra = dict(input_distribution=dist, traces_validated_against_impl=len(keys), pairs=len(results),
                      documents_with_three_likelihoods_sharing_one_site_pattern=n_shared,
                      likelihoods_built_with_the_public_constructors=n_cons,
+                     likelihoods_of_trees_written_in_other_ways_in_the_newick_string=n_nw,
                      rootings_of_a_large_tree_in_the_subnormal_band=n_big)
     return rep.finish()
